@@ -89,6 +89,20 @@ def build_cases(tier, seed):
                             first = False
                             seen.add(key)
                             out.append(('ens', si, E, P, mode, sg, rgs, seed))
+    # larger scope: ensembles beyond 16 members (several jobs per chunk, batch sizes) - every schedule of the 4..6 chunks
+    for si in range(1):
+        for mode in ('single', 'flip'):
+            for (E, P) in ((17, 1), (20, 1), (17, 2)) if tier == 'quick' else ((17, 1), (20, 1), (33, 1), (17, 2), (24, 2), (40, 3)):
+                C, cs = nchunks(E, P)
+                for rgs in enum.restricted_growth_strings(C, P):
+                    out.append(('ens', si, E, P, mode, 0.2, rgs, seed))
+    # integer-typed input (ADC counts): same rules
+    for mode in ('single', 'flip'):
+        for sg in (0.0, 0.3):
+            for (E, P) in ((3, 1), (4, 2)):
+                C, cs = nchunks(E, P)
+                for rgs in enum.restricted_growth_strings(C, P):
+                    out.append(('ens-int', 0, E, P, mode, sg, rgs, seed))
     # no IMF cap: members (and the +/- pair of a flip member) may find different numbers of IMFs
     for si in range(b['signals']):
         for mode in ('single', 'flip'):
@@ -132,6 +146,8 @@ def run_controlled(case):
     import emd.sift as S
     kind, si, E, P, mode, sg, rgs, seed = case
     x = signal_of(si, seed)
+    if kind == 'ens-int':
+        x = np.round(x * 40).astype(np.int16)
     rs = 0
     if isinstance(sg, (tuple, list)):
         sg, rs = sg
@@ -139,9 +155,9 @@ def run_controlled(case):
     cm = forkpool.ControlledMP([list(rgs)])
     with forkpool.installed(cm):
         try:
-            if kind in ('ens', 'ens-nocap'):
+            if kind in ('ens', 'ens-nocap', 'ens-int'):
                 res = S.ensemble_sift(x.copy(), nensembles=E, nprocesses=P, noise_mode=mode, ensemble_noise=sg,
-                                      max_imfs=2 if kind == 'ens' else None)
+                                      max_imfs=None if kind == 'ens-nocap' else 2)
             else:
                 res = S.complete_ensemble_sift(x.copy(), nensembles=E, nprocesses=P, noise_mode=mode, ensemble_noise=sg, max_imfs=2)
         except forkpool.HarnessError:
@@ -203,8 +219,9 @@ def check_case(case):
     X = x[:, None]
     nper = 2 if mode == 'flip' else 1
     nocap = kind == 'ens-nocap'
-    if nocap:
+    if kind in ('ens-nocap', 'ens-int'):
         kind = 'ens'
+    x = np.asarray(x, dtype=float)
     if kind == 'ens':
         imf = np.asarray(res)
         stage = sorted(jobs, key=lambda j: j[0])
